@@ -15,8 +15,8 @@ THEOREMS = ["Mmtk.RefProc.weak_cleared_iff", "Mmtk.RefProc.enqueued_once", "Mmtk
 KEYS = ("gc:referent-mismatch", "gc:enqueued-mismatch", "gc:getfin-mismatch", "gc:getallfin-mismatch", "gc:ismo-missing",
         "gc:dup-id", "gc:extra-object", "gc:lost-object", "gc:size-mismatch", "gc:payload", "gc:field-mismatch", "gc:root-mismatch")
 META = {
-    "text": "Reference / finalizable processor models (Model/RefProc.lean, transcribed from reference_processor.rs and finalizable_processor.rs): a registered live reference is cleared and enqueued iff its referent is outside the closure computed before its stage, exactly once per registration, a live referent is kept, a dead reference is dropped silently, soft referents are retained outside emergency collections; the finalizable processor conserves registrations (each is candidate, ready or popped, never two of them, never lost), a registration becomes ready iff its object is unreachable at the scan and `get_ready_object` hands out each ready registration once — over histories of any length. The monitor's pipeline `gcStages` (Soft -> Weak -> Final (+rescan) -> Phantom, each on the closure of what was retained before) keeps the tables duplicate-free and satisfies the per-stage specifications. Real collections: programs that register soft / weak / phantom reference objects and finalizers (also twice), keep / drop / share referents, clear referents by hand, drop reference objects, re-register enqueued ones, resurrect subgraphs through finalizers (weak cleared, phantom kept), pop finalized objects late and re-root them, on all 10 collecting plans x {1,4} workers with full-heap GCs and, on the generational plans, nursery GCs; after every pause `enqueued`, `referent`, `getfin`, `getallfin`, the snapshot's referent fields and the re-rooted finalized subgraphs are compared with the model by the Lean monitor and by an independent Python oracle.",
-    "note": "Level: proof of the model, partial w.r.t. the code. Emergency collections (soft references cleared) are modelled (`emergency` flag of gcStages, `soft_retained` has the non-emergency hypothesis) but not provoked by the programs. The reference tables of mmtk-core are hash sets: enqueue order is compared as a multiset; reference objects are kept out of referent closures because `retain` iterates the hash set while marking (order-dependent which soft referent of a soft-reachable soft reference is retained).",
+    "text": "Reference / finalizable processor models (Model/RefProc.lean, transcribed from reference_processor.rs and finalizable_processor.rs): a registered live reference is cleared and enqueued iff its referent is outside the closure computed before its stage, exactly once per registration, a live referent is kept, a dead reference is dropped silently, soft referents are retained outside emergency collections; the finalizable processor conserves registrations (each is candidate, ready or popped, never two of them, never lost), a registration becomes ready iff its object is unreachable at the scan and `get_ready_object` hands out each ready registration once — over histories of any length. The monitor's pipeline `gcStages` (Soft -> Weak -> Final (+rescan) -> Phantom, each on the closure of what was retained before) keeps the tables duplicate-free and satisfies the per-stage specifications. Real collections: programs that register soft / weak / phantom reference objects and finalizers (also twice), keep / drop / share referents, clear referents by hand, drop reference objects, re-register enqueued ones, resurrect subgraphs through finalizers (weak cleared, phantom kept), pop finalized objects late and re-root them, on all 10 collecting plans x {1,4} workers with full-heap GCs, on the generational plans nursery GCs, and emergency collections; after every pause `enqueued`, `referent`, `getfin`, `getallfin`, the snapshot's referent fields and the re-rooted finalized subgraphs are compared with the model by the Lean monitor and by an independent Python oracle.",
+    "note": "Level: proof of the model, partial w.r.t. the code. Emergency collections (soft references cleared and enqueued; `emergency` flag of gcStages, `soft_retained` has the non-emergency hypothesis) are provoked by one structured program per stop-the-world plan: an allocation that keeps failing in a nearly full heap goes through an ordinary, a full-heap and then emergency collections before out_of_memory. The reference tables of mmtk-core are hash sets: enqueue order is compared as a multiset; reference objects are kept out of referent closures because `retain` iterates the hash set while marking (order-dependent which soft referent of a soft-reachable soft reference is retained).",
     "technique": "Lean 4 proof (stage specifications, conservation invariants over histories) + run-time verification of real collections by the executable models + independent oracle",
     "category": "proof",
 }
@@ -311,6 +311,39 @@ def gen_resurrect(rnd, plan, info, heap, workers):
     return G.Program(plan, g.ops, heap=heap, workers=workers, tag="resurrect")
 
 
+def gen_emergency(rnd, plan, info, workers):
+    """12 MB of rooted large objects in a 16 MB heap, a soft and a weak reference to dropped objects: a user GC keeps the
+    soft referent (and clears the weak one); an 8 MB allocation then fails through several collections, the later ones
+    emergency collections, which clear and enqueue the soft reference; the allocation answers null after out_of_memory."""
+    g = RGen(rnd, plan, info, 16 * G.MB)
+    a = g.alloc(1, 40, "Default", 63)
+    g.vmroot(G.ANCHOR_KEY, a)
+    g.root(63, None)
+    for k in range(3):
+        g.alloc(0, 4000000, "Los", 1 + k)
+    d1 = g.alloc(rnd.choice([0, 1]), 64, "Default", 10)
+    s1 = g.alloc(1, 48, "Default", 11)
+    g.mkref(s1, "soft", d1)
+    d2 = g.alloc(0, 64, "Default", 12)
+    w1 = g.alloc(2, 56, "Default", 13)
+    g.mkref(w1, "weak", d2)
+    d3 = g.alloc(0, 128, "Default", 14)
+    s2 = g.alloc(1, 48, "Default", 15)
+    g.mkref(s2, "soft", d3)             # this referent stays strongly reachable
+    g.root(10, None); g.root(12, None)
+    g.gc(True); g.probes([s1, w1, s2])
+    g.emit("alloc 0 %d 0 8000000 8 0 Los 20" % g.next)
+    g.m.sh.apply(("alloc 0 %d 0 8000000 8 0 Los 20" % g.next).split(), 0)
+    g.m.sh._set_root(G.mut_key(0, 20), None)
+    g.next += 1
+    g.emit("sleep 0")                   # a null answer carries no gcs=: this op reveals the pauses the allocation went through
+    nur = g.m.generational
+    g.m.gc(nur); g.m.gc(False, emergency=not nur); g.m.gc(False, emergency=True)
+    g.probes([s1, w1, s2])
+    g.emit("snap")
+    return G.Program(plan, g.ops, heap=16 * G.MB, workers=workers, tag="emergency")
+
+
 def make_suite(seed, tier):
     progs = []
     thorough = tier == "thorough"
@@ -326,6 +359,8 @@ def make_suite(seed, tier):
                     ps.append(gen_resurrect(rnd, plan, info, heap, w))
                 if plan in GENERATIONAL:
                     ps.append(gen_refs(rnd, plan, info, heap, w, rounds=4 if not thorough else 12, nursery=True))
+                if plan != "ConcurrentImmix" and (w == 1 or thorough):
+                    ps.append(gen_emergency(rnd, plan, info, w))
                 for p in ps:
                     p.yield_seed = ys
                 progs += ps
@@ -342,8 +377,12 @@ def oracle(trace):
             continue
         g = G._GCS.search(res)
         if g and int(g.group(1)) != gcs:
-            gcs = int(g.group(1))
-            m.gc(nursery=(t[0] == "gc" and t[2] == "0" and m.generational))
+            # several pauses in one op = an allocation that kept failing: ordinary, then full-heap (an emergency collection
+            # unless the first was a nursery one), then emergency collections
+            n, gcs = int(g.group(1)) - gcs, int(g.group(1))
+            nursery = m.generational and not (t[0] == "gc" and t[2] == "1")
+            for i in range(n):
+                m.gc(nursery=(nursery and i == 0), emergency=(i >= 2 or (i == 1 and not nursery)))
         k = t[0]
         if k == "constraints":
             moves = "moves=1" in r
@@ -355,6 +394,9 @@ def oracle(trace):
             last_ref[int(t[2])] = int(kv["r"], 16)
             if t[7] != "Default" or not moves:
                 fixed.add(int(t[2]))
+        elif k == "alloc" and r[0] == "null":
+            m.sh.apply(t, 0)                      # the id is consumed (tombstone)
+            m.sh._set_root(G.mut_key(int(t[1]), int(t[8])), None)
         elif k in ("root", "vmroot", "write", "copyrange", "destroy", "mkref") and r[0] == "ok":
             m.sh.apply(t)
         elif k == "addref" and r[0] == "ok":
@@ -473,6 +515,6 @@ def main(argv=None):
                        rule="one evaluation = one answer of hx_gc compared with the model (`enqueued`, `referent`, `getfin`, `getallfin`, a snapshot incl. referent fields and re-rooted finalized subgraphs); non-trivial = an `enqueued` naming >= 1 reference, or a `getfin` that returned an object; distinct by (plan, workers, kind, pause, value)",
                        assumptions=["every GC of these programs is a user GC: `gc m 1` full-heap, `gc m 0` on a generational plan a nursery collection (64 MB heap, no natural GC)",
                                     "reference objects are reachable from roots only (never from a referent's or a finalizable object's closure, except in the structured `resurrect` program where the order is deterministic)",
-                                    "no emergency collection happens (soft referents are always retained)",
+                                    "several pauses inside one op = a failing allocation: 1st ordinary (nursery on generational plans), 2nd full-heap and an emergency collection unless the 1st was a nursery one, later ones emergency (GlobalState::set_collection_kind); elsewhere no emergency collection happens",
                                     "the VerifVM binding implements ReferenceGlue / Finalizable as documented in harness/HX_GC.md"],
                        malformed=MALFORMED)
